@@ -21,7 +21,11 @@ PY = "/venv/bin/python"
 def prepare(change):
     scratch = tempfile.mkdtemp(prefix="vf-regr-")
     repo = os.path.join(scratch, "repo")
-    shutil.copytree("/repo", repo, ignore=shutil.ignore_patterns(".git", "__pycache__"))
+    # (the committed state of /repo: a seeded change somebody is trying out in the working tree at this moment must
+    # not leak into the regression run)
+    os.makedirs(repo)
+    tar = subprocess.run(["git", "-C", "/repo", "archive", "HEAD"], capture_output=True, check=True).stdout
+    subprocess.run(["tar", "-x", "-C", repo], input=tar, check=True)
     if change.get("diff"):
         r = subprocess.run(["patch", "-p1", "-s", "-i", change["diff"]], cwd=repo, capture_output=True, text=True)
         if r.returncode:
@@ -77,6 +81,8 @@ def main():
             changes.append(c)
     if args.what in ("all", "seeded"):
         for d in sorted(os.listdir(os.path.join(VERIF, "seeded"))):
+            if not os.path.isdir(os.path.join(VERIF, "seeded", d)):
+                continue
             changes.append(dict(name="seeded/" + d, props=[d.split("-")[0]],
                                 diff=os.path.join(VERIF, "seeded", d, "patch.diff")))
     if args.only:
